@@ -1028,6 +1028,12 @@ type swamp struct {
 
 	valueBeaconASC  beacon.Beacon // ordered list of the Treasures by the ascendant Value field
 	valueBeaconDESC beacon.Beacon // ordered list of the Treasures by the descendant Value field
+	// valueBeaconType is the BeaconType (BeaconTypeValue*) the two value beacons were
+	// built and sorted for. The value beacons are shared by every value type and are
+	// built lazily by buildBeacon, so the incremental maintenance (addToValueBeacon)
+	// must re-sort them with the sorter of the type they were built for.
+	// Accessed atomically (stored by buildBeacon before the beacon is flagged initialized).
+	valueBeaconType int32
 
 	// -------------------  the following fields are used for the unordered list -------------------
 	// treasuresWaitingForWriter just the key of the treasures that are waiting for the writer to write them to the chroniclerInterface
@@ -1132,6 +1138,8 @@ func New(name name.Name, closeAfterIdle time.Duration, filesystemSettings *Files
 	s.valueBeaconASC.SetIsOrdered(true)
 	s.valueBeaconDESC = beacon.New()
 	s.valueBeaconDESC.SetIsOrdered(true)
+	// int64 is the historical default sorter of the value beacons
+	atomic.StoreInt32(&s.valueBeaconType, int32(BeaconTypeValueInt64))
 
 	// create beacon for the treasuresWaitingForWriter
 	s.treasuresWaitingForWriter = beacon.New()
@@ -3152,45 +3160,18 @@ func (s *swamp) buildBeacon(beaconASC beacon.Beacon, beaconDESC beacon.Beacon, b
 		return
 	}
 
+	// remember which value type the (shared) value beacons are sorted by, so the
+	// incremental maintenance keeps them in the same order. Stored before the
+	// beacons are flagged initialized, because addToValueBeacon reads it only
+	// after it observed an initialized beacon.
+	if beaconASC == s.valueBeaconASC && beaconDESC == s.valueBeaconDESC {
+		atomic.StoreInt32(&s.valueBeaconType, int32(bc))
+	}
+
 	if !beaconASC.IsInitialized() {
 		beaconASC.SetInitialized(true)
 		beaconASC.PushManyFromMap(s.treasuresForBeacon(bc))
-		var err error
-		switch bc {
-		case BeaconTypeCreationTime:
-			err = beaconASC.SortByCreationTimeAsc()
-		case BeaconTypeUpdateTime:
-			err = beaconASC.SortByUpdateTimeAsc()
-		case BeaconTypeExpirationTime:
-			err = beaconASC.SortByExpirationTimeAsc()
-		case BeaconTypeValueUint8:
-			err = beaconASC.SortByValueUint8ASC()
-		case BeaconTypeValueUint16:
-			err = beaconASC.SortByValueUint16ASC()
-		case BeaconTypeValueUint32:
-			err = beaconASC.SortByValueUint32ASC()
-		case BeaconTypeValueUint64:
-			err = beaconASC.SortByValueUint64ASC()
-		case BeaconTypeValueInt8:
-			err = beaconASC.SortByValueInt8ASC()
-		case BeaconTypeValueInt16:
-			err = beaconASC.SortByValueInt16ASC()
-		case BeaconTypeValueInt32:
-			err = beaconASC.SortByValueInt32ASC()
-		case BeaconTypeValueInt64:
-			err = beaconASC.SortByValueInt64ASC()
-		case BeaconTypeValueFloat32:
-			err = beaconASC.SortByValueFloat32ASC()
-		case BeaconTypeValueFloat64:
-			err = beaconASC.SortByValueFloat64ASC()
-		case BeaconTypeValueString:
-			err = beaconASC.SortByValueStringASC()
-		case BeaconTypeKey:
-			err = beaconASC.SortByKeyAsc()
-		default:
-			err = beaconASC.SortByKeyAsc()
-		}
-		if err != nil {
+		if err := sortBeaconByType(beaconASC, bc, IndexOrderAsc); err != nil {
 			beaconASC.SetInitialized(false)
 			slog.Error("failed to sort keyBeaconASC", "error", err)
 		}
@@ -3199,47 +3180,97 @@ func (s *swamp) buildBeacon(beaconASC beacon.Beacon, beaconDESC beacon.Beacon, b
 	if !beaconDESC.IsInitialized() {
 		beaconDESC.SetInitialized(true)
 		beaconDESC.PushManyFromMap(s.treasuresForBeacon(bc))
-		var err error
-		switch bc {
-		case BeaconTypeCreationTime:
-			err = beaconDESC.SortByCreationTimeDesc()
-		case BeaconTypeUpdateTime:
-			err = beaconDESC.SortByUpdateTimeDesc()
-		case BeaconTypeExpirationTime:
-			err = beaconDESC.SortByExpirationTimeDesc()
-		case BeaconTypeValueUint8:
-			err = beaconDESC.SortByValueUint8DESC()
-		case BeaconTypeValueUint16:
-			err = beaconDESC.SortByValueUint16DESC()
-		case BeaconTypeValueUint32:
-			err = beaconDESC.SortByValueUint32DESC()
-		case BeaconTypeValueUint64:
-			err = beaconDESC.SortByValueUint64DESC()
-		case BeaconTypeValueInt8:
-			err = beaconDESC.SortByValueInt8DESC()
-		case BeaconTypeValueInt16:
-			err = beaconDESC.SortByValueInt16DESC()
-		case BeaconTypeValueInt32:
-			err = beaconDESC.SortByValueInt32DESC()
-		case BeaconTypeValueInt64:
-			err = beaconDESC.SortByValueInt64DESC()
-		case BeaconTypeValueFloat32:
-			err = beaconDESC.SortByValueFloat32DESC()
-		case BeaconTypeValueFloat64:
-			err = beaconDESC.SortByValueFloat64DESC()
-		case BeaconTypeValueString:
-			err = beaconDESC.SortByValueStringDESC()
-		case BeaconTypeKey:
-			err = beaconDESC.SortByKeyDesc()
-		default:
-			err = beaconDESC.SortByKeyDesc()
-		}
-		if err != nil {
+		if err := sortBeaconByType(beaconDESC, bc, IndexOrderDesc); err != nil {
 			beaconDESC.SetInitialized(false)
 			slog.Error("failed to sort keyBeaconDESC", "error", err)
 		}
 	}
 
+}
+
+// sortBeaconByType sorts the given (ordered) beacon with the sorter that belongs to the
+// beacon type and the order. Unknown beacon types are sorted by key. Any order other
+// than IndexOrderDesc is treated as ascending.
+func sortBeaconByType(b beacon.Beacon, bc BeaconType, order BeaconOrder) error {
+	desc := order == IndexOrderDesc
+	switch bc {
+	case BeaconTypeCreationTime:
+		if desc {
+			return b.SortByCreationTimeDesc()
+		}
+		return b.SortByCreationTimeAsc()
+	case BeaconTypeUpdateTime:
+		if desc {
+			return b.SortByUpdateTimeDesc()
+		}
+		return b.SortByUpdateTimeAsc()
+	case BeaconTypeExpirationTime:
+		if desc {
+			return b.SortByExpirationTimeDesc()
+		}
+		return b.SortByExpirationTimeAsc()
+	case BeaconTypeValueUint8:
+		if desc {
+			return b.SortByValueUint8DESC()
+		}
+		return b.SortByValueUint8ASC()
+	case BeaconTypeValueUint16:
+		if desc {
+			return b.SortByValueUint16DESC()
+		}
+		return b.SortByValueUint16ASC()
+	case BeaconTypeValueUint32:
+		if desc {
+			return b.SortByValueUint32DESC()
+		}
+		return b.SortByValueUint32ASC()
+	case BeaconTypeValueUint64:
+		if desc {
+			return b.SortByValueUint64DESC()
+		}
+		return b.SortByValueUint64ASC()
+	case BeaconTypeValueInt8:
+		if desc {
+			return b.SortByValueInt8DESC()
+		}
+		return b.SortByValueInt8ASC()
+	case BeaconTypeValueInt16:
+		if desc {
+			return b.SortByValueInt16DESC()
+		}
+		return b.SortByValueInt16ASC()
+	case BeaconTypeValueInt32:
+		if desc {
+			return b.SortByValueInt32DESC()
+		}
+		return b.SortByValueInt32ASC()
+	case BeaconTypeValueInt64:
+		if desc {
+			return b.SortByValueInt64DESC()
+		}
+		return b.SortByValueInt64ASC()
+	case BeaconTypeValueFloat32:
+		if desc {
+			return b.SortByValueFloat32DESC()
+		}
+		return b.SortByValueFloat32ASC()
+	case BeaconTypeValueFloat64:
+		if desc {
+			return b.SortByValueFloat64DESC()
+		}
+		return b.SortByValueFloat64ASC()
+	case BeaconTypeValueString:
+		if desc {
+			return b.SortByValueStringDESC()
+		}
+		return b.SortByValueStringASC()
+	default:
+		// BeaconTypeKey and anything unknown
+		if desc {
+			return b.SortByKeyDesc()
+		}
+		return b.SortByKeyAsc()
+	}
 }
 
 func (s *swamp) addToKeyBeacon(treasureInterface treasure.Treasure) {
@@ -3322,15 +3353,18 @@ func (s *swamp) addToValueBeacon(treasureInterface treasure.Treasure) {
 	if !s.valueBeaconASC.IsInitialized() {
 		return
 	}
+	// re-sort with the sorter of the value type the beacons were built for
+	// (see buildBeacon), not unconditionally as int64
+	bc := BeaconType(atomic.LoadInt32(&s.valueBeaconType))
 	s.valueBeaconASC.Add(treasureInterface)
-	err := s.valueBeaconASC.SortByValueInt64ASC()
+	err := sortBeaconByType(s.valueBeaconASC, bc, IndexOrderAsc)
 	if err != nil {
-		slog.Error("failed to sort valueIntBeaconASC", "error", err)
+		slog.Error("failed to sort valueBeaconASC", "error", err)
 	}
 	s.valueBeaconDESC.Add(treasureInterface)
-	err = s.valueBeaconDESC.SortByValueInt64DESC()
+	err = sortBeaconByType(s.valueBeaconDESC, bc, IndexOrderDesc)
 	if err != nil {
-		slog.Error("failed to sort valueIntBeaconDESC", "error", err)
+		slog.Error("failed to sort valueBeaconDESC", "error", err)
 	}
 }
 
